@@ -39,14 +39,23 @@ def network(repo, lanelets, indexed=True):
         o.fields["_lanelets"].d[l.fields["_lanelet_id"]] = l
         o.fields["_buffered_polygons"].d[l.fields["_lanelet_id"]] = l.fields["_polygon"].fields["shapely_object"]
     if indexed:
-        geos = [l.fields["_polygon"].fields["shapely_object"] for l in lanelets]
-        o.fields["_lanelet_id_index_by_id"] = DictV({ev.key_of(IdV(g)): l.fields["_lanelet_id"] for g, l in zip(geos, lanelets)})
-        o.fields["_strtee"] = Ctor("shapely.strtree.STRtree", {"arg0": ListV(geos)}, kind="call")
+        # the index is built by the class's own _create_strtree from the polygons (whatever it keeps the id map in)
+        owner, cs = repo.find_method(net, "_create_strtree")
+        if cs is None:
+            raise AnalysisError("LaneletNetwork._create_strtree missing")
+        try:
+            ev.call_fn(ev.bind(cs, owner, o), [], {}, cs)
+        except (_Raise, Undecided) as x:
+            raise AnalysisError("LaneletNetwork._create_strtree could not be evaluated: %s" % x)
     o.label = "network"
     return o
 
 
+_REPO = [None]
+
+
 def evaluator(repo):
+    _REPO[0] = repo
     ev = Ev(repo)
     ev.pure_modules = {"shapely", "np", "numpy", "math", "STRtree"}
     ev.instantiate = {"LaneletNetwork"}
@@ -75,12 +84,27 @@ def invariant(net, tree_required=True):
         if B.d[k] is not valid[k].fields["_polygon"].fields["shapely_object"]:
             bad.append("index[%s] is %s, not the geometry of lanelet %s" % (k, show(B.d[k]), k))
     if tree_required:
-        if not isinstance(M, DictV):
-            bad.append("id map is %s" % show(M))
-        else:
+        if isinstance(M, DictV):
             want = {("id", id(g)): k for k, g in B.d.items()}
             if M.d != want:
                 bad.append("id map does not map id(geometry) -> lanelet id for exactly the indexed geometries (%d entries, %d indexed)" % (len(M.d), len(B.d)))
+        elif _REPO[0] is not None and net.cls is not None:
+            # the id map is kept in some other structure: asked through the class's own look-up, geometry by geometry
+            owner, look = _REPO[0].find_method(net.cls, "_get_lanelet_id_by_shapely_polygon")
+            if look is None:
+                bad.append("id map is %s and there is no _get_lanelet_id_by_shapely_polygon to ask" % show(M))
+            else:
+                for k, g in B.d.items():
+                    ev = evaluator(_REPO[0])
+                    try:
+                        got = ev.call_fn(ev.bind(look, owner, net), [g], {}, look)
+                    except _Raise as x:
+                        bad.append("the id map does not know the geometry of lanelet %s (%s)" % (k, x.what))
+                        continue
+                    if got != k:
+                        bad.append("the id map answers %s for the geometry of lanelet %s" % (show(got), k))
+        else:
+            bad.append("id map is %s" % show(M))
         if not (isinstance(T, Ctor) and T.name.endswith("STRtree") and len(T.args) == 1):
             bad.append("tree is %s" % show(T))
         else:
@@ -281,7 +305,22 @@ def lookup_rules(repo, res, RULE):
             for alt in ("contains", "covers", "touches", "within", "overlaps", "dwithin"):
                 g.fields[alt] = PyFunc(lambda a, k, alt=alt: (_ for _ in ()).throw(AnalysisError("tree candidates are tested with .%s: outside the modelled vocabulary" % alt)), alt)
         tree = Obj(None, {"geometries": ListV(geos), "query": PyFunc(query, "query")}, closed=True, label="tree")
-        n = Obj(net_cls, {"_strtee": tree, "_lanelet_id_index_by_id": DictV({ev.key_of(IdV(g)): k for g, k in zip(geos, lids)}), "_lanelets": DictV(), "_buffered_polygons": DictV({k: g for g, k in zip(geos, lids)})}, label="network")
+        n = Obj(net_cls, {"_strtee": tree, "_lanelets": DictV(), "_buffered_polygons": DictV({k: g for g, k in zip(geos, lids)})}, label="network")
+        # the id map is built by the class's own _create_strtree (whatever structure it is kept in); the tree it makes is
+        # the model above
+        owner_, cs_ = repo.find_method(net_cls, "_create_strtree")
+        if cs_ is None:
+            raise AnalysisError("LaneletNetwork._create_strtree missing")
+        ev_b = evaluator(repo)
+        made = []
+        for nm in ("STRtree", "shapely.strtree.STRtree", "strtree.STRtree", "shapely.STRtree"):
+            ev_b.model_calls[nm] = lambda a, k, tree=tree, made=made: (made.append(a[0] if a else None), tree)[1]
+        try:
+            ev_b.call_fn(ev_b.bind(cs_, owner_, n), [], {}, cs_)
+        except (_Raise, Undecided) as x:
+            raise AnalysisError("LaneletNetwork._create_strtree could not be evaluated: %s" % x)
+        if n.fields.get("_strtee") is not tree:
+            n.fields["_strtee"] = tree
         return n
 
     # ---- by shape
